@@ -12,6 +12,8 @@ import (
 	"github.com/consensys/gnark/backend/witness"
 	"github.com/consensys/gnark/constraint"
 	"github.com/consensys/gnark/frontend"
+	"github.com/consensys/gnark/frontend/cs/r1cs"
+	"github.com/consensys/gnark/frontend/cs/scs"
 	"github.com/consensys/gnark/frontend/schema"
 	gnarkio "github.com/consensys/gnark/io"
 	"github.com/consensys/gnark/test/unsafekzg"
@@ -344,5 +346,49 @@ func c09Replay(args common.Args, out *common.Out) error {
 	common.ParallelFor(len(behs), args.Int("par", 8), func(i int) {
 		out.Emit(c09Run(&behs[i]))
 	})
+	return nil
+}
+
+// bigCircuit has more inputs than the default CBOR decoder limits allow per array.
+type bigCircuit struct {
+	P frontend.Variable `gnark:",public"`
+	S []frontend.Variable
+}
+
+func (c *bigCircuit) Define(api frontend.API) error {
+	var acc frontend.Variable = 0
+	for i := range c.S {
+		acc = api.Add(acc, c.S[i])
+	}
+	api.AssertIsEqual(acc, c.P)
+	return nil
+}
+
+// c09Big round-trips a constraint system with 140000 inputs (large arrays / maps in the encoding).
+func c09Big(args common.Args, out *common.Out) error {
+	res := C09Res{ID: -2, Curve: CurveName}
+	bad := func(f string, a ...any) { res.Problems = append(res.Problems, fmt.Sprintf(f, a...)) }
+	for _, builder := range []string{"r1cs", "scs"} {
+		c := &bigCircuit{S: make([]frontend.Variable, 140000)}
+		var ccs constraint.ConstraintSystem
+		var err error
+		if builder == "r1cs" {
+			ccs, err = frontend.Compile(field(), r1cs.NewBuilder, c)
+		} else {
+			ccs, err = frontend.Compile(field(), scs.NewBuilder, c)
+		}
+		if err != nil {
+			bad("INFRA compile: %v", err)
+			break
+		}
+		var dst constraint.ConstraintSystem
+		if builder == "r1cs" {
+			dst = groth16.NewCS(CurveID)
+		} else {
+			dst = plonk.NewCS(CurveID)
+		}
+		roundTrip("constraint system with 140000 inputs ("+builder+")", "bin", ccs, dst, bad)
+	}
+	out.Emit(res)
 	return nil
 }
